@@ -36,13 +36,14 @@ func TestC18Notify(t *testing.T) {
 			kinds = append(kinds, kindFromDraw(rt))
 		}
 		idseed := rapid.Uint64Range(1, 1<<40).Draw(rt, "idseed")
+		dep := drawDeployment(rt)
 		w, err := newL1World(idseed, kinds)
 		if err != nil {
 			c.failf("HARNESS-ERROR: %v", err)
 		}
 		defer w.close()
 		w.noConverge = true
-		c.j.Header = map[string]interface{}{"kinds": kinds, "id_seed": idseed}
+		c.j.Header = map[string]interface{}{"kinds": kinds, "id_seed": idseed, "deployment": dep}
 		var canon strings.Builder
 		pushing, pullOnly := map[int]bool{}, map[int]bool{}
 		logLens := func() map[string]int64 {
@@ -195,7 +196,7 @@ func TestC18Notify(t *testing.T) {
 				both++
 			}
 		}
-		nlabels := []string{fmt.Sprintf("pushers=%d", len(pushing))}
+		nlabels := []string{fmt.Sprintf("pushers=%d", len(pushing)), dep}
 		if patchPublishes > 0 {
 			nlabels = append(nlabels, "rest-patch-that-stored-operations")
 		}
